@@ -594,6 +594,20 @@ func c02Run(r *Run) {
 			for _, res := range rs.Results {
 				consume(s, res)
 			}
+			// the exit hands back a freshly built error throw (data.NewErrorThrow(…), utils.NewThrowf(…)): a
+			// control known to be non-nil is replaced by an error the caller still sees, not silently lost
+			for _, res := range rs.Results {
+				if c, ok := ast.Unparen(res).(*ast.CallExpr); ok {
+					if cal := calleeFunc(info, c); cal != nil && cal.Pkg() != nil && strings.HasPrefix(cal.Pkg().Path(), modPath) {
+						sig := cal.Type().(*types.Signature)
+						if sig.Recv() == nil && sig.Results().Len() == 1 && (isControl(sig.Results().At(0).Type()) || controlKind(sig.Results().At(0).Type()) != "" || isNamed(sig.Results().At(0).Type(), modPath+"/data", "ThrowValue")) && strings.Contains(cal.Name(), "Throw") {
+							for o := range s.nonNil {
+								delete(s.nonNil, o)
+							}
+						}
+					}
+				}
+			}
 			if len(rs.Results) == 0 && fd.Type.Results != nil {
 				for _, f := range fd.Type.Results.List {
 					for _, nm := range f.Names {
